@@ -215,6 +215,9 @@ def run_property(pid, tier, seed):
     print('%s %s: items=%d states=%d transitions=%d evaluations=%d distinct_operators=%d out_of_domain=%d '
           'regimes=%d wall=%.1fs' % (pid, tier, n_items, len(agg['states']), agg['transitions'], agg['evals'],
                                      len(agg['ophashes']), agg['ood'], len(agg['regimes']), wall))
+    for nt in sorted(set(agg['notes'])):
+        if nt.startswith('free_running_mismatch'):
+            print('NOTE (not deciding): ' + nt)
     for k, (f, n) in sorted(known.items()):
         print('KNOWN-FINDING: property=%s %s %s (%d cases)' % (pid, k, f['what'], n))
     for ln in lines:
